@@ -447,6 +447,84 @@ def reaching_value(node, name: str):
     return None
 
 
+def reaching_values(node, name: str):
+    """All value expressions of assignments to local ``name`` that may reach ``node`` (a may-analysis over the block
+    structure: an ``if`` / ``try`` before the use contributes the last definition of each branch that has one, and the
+    scan goes on past it when some branch has none).  The marker ``"?"`` is included when a definition cannot be
+    expressed as a value (augmented assignment, loop target, with-as, loop back edge) or when none is found."""
+    def last_defs(stmts):
+        """(values defined along `stmts` that survive to its end, may the block fall through without defining?)"""
+        out, open_ = [], True
+        for st in reversed(stmts):
+            vals, through = defs_of(st)
+            out += vals
+            if not through:
+                open_ = False
+                break
+        return out, open_
+
+    def defs_of(st):
+        """(values, may control pass st without (re)defining name?)"""
+        if isinstance(st, ast.Assign):
+            for t in st.targets:
+                if isinstance(t, ast.Name) and t.id == name:
+                    return [st.value], False
+                if isinstance(t, (ast.Tuple, ast.List)):
+                    if isinstance(st.value, (ast.Tuple, ast.List)) and len(t.elts) == len(st.value.elts):
+                        for t_, v_ in zip(t.elts, st.value.elts):
+                            if isinstance(t_, ast.Name) and t_.id == name:
+                                return [v_], False
+                    elif any(isinstance(x, ast.Name) and x.id == name for x in ast.walk(t)):
+                        return ["?"], False
+            return [], True
+        if isinstance(st, ast.AnnAssign):
+            if isinstance(st.target, ast.Name) and st.target.id == name and st.value is not None:
+                return [st.value], False
+            return [], True
+        if isinstance(st, ast.AugAssign):
+            return [], True          # rebinding through an in-place operator keeps the object (arrays) -- not a new definition
+        if isinstance(st, ast.If):
+            a, ta = last_defs(st.body)
+            b, tb = last_defs(st.orelse)
+            return a + b, ta or tb
+        if isinstance(st, ast.Try):
+            a, ta = last_defs(list(st.body) + list(st.orelse))
+            hs = [last_defs(h.body) for h in st.handlers]
+            vals = a + [v for h, _t in hs for v in h]
+            f, tf = last_defs(st.finalbody)
+            if f and not tf:
+                return f, False
+            return vals + f, ta or any(t for _h, t in hs) or not st.handlers and ta
+        if isinstance(st, (ast.For, ast.While, ast.With)):
+            stores = any(isinstance(x, ast.Name) and x.id == name and isinstance(x.ctx, ast.Store) for x in ast.walk(st))
+            if not stores:
+                return [], True
+            a, _ta = last_defs(st.body)
+            return a + ["?"], True
+        if isinstance(st, FUNC_NODES + (ast.ClassDef,)):
+            return [], True
+        if any(isinstance(x, ast.Name) and x.id == name and isinstance(x.ctx, ast.Store) for x in ast.walk(st)):
+            return ["?"], False
+        return [], True
+
+    st = node
+    while st is not None and not isinstance(st, ast.stmt):
+        st = parent(st)
+    out = []
+    while st is not None and not isinstance(st, FUNC_NODES):
+        blk, i = _block_of(st)
+        if blk is None:
+            return out + ["?"]
+        vals, open_ = last_defs(blk[:i])
+        out += vals
+        if not open_:
+            return out
+        st = parent(st)
+        if isinstance(st, (ast.For, ast.While)) and any(isinstance(x, ast.Name) and x.id == name and isinstance(x.ctx, ast.Store) for x in ast.walk(st)):
+            out.append("?")
+    return out or ["?"]
+
+
 def clone(node):
     """Deep copy of a syntax tree through its fields only (copy.deepcopy would follow the ``_parent`` links and copy
     the whole module)."""
